@@ -28,27 +28,67 @@ def envs(tree, vals, c, k):
             for j in range(3)]
 
 
-def detectable_at_first_point(tree, c, vals1, i, k, l, reduce_sum, n):
-    """Would ExecComp's sparsity sampling (inputs moved by 1e-9 relative, 1e-9 absolute for zeros; entries
-    below 1e-25 of the largest are dropped) see the entry d y[k] / d x_i[l] at the first linearization point?
-    Used only to CLASSIFY a lost entry: 'detectable' entries that are nevertheless reported as 0 later are a
-    different failure than entries whose derivative vanishes to high order / sits on a locally constant branch
-    at the sampling point."""
-    def pert(v):
-        v = np.array(v, dtype=float)
-        off = np.where(v == 0.0, 1.0, np.abs(v)) * 1e-9 * 0.5
-        return v + off
-    pv = {nm: pert(v) for nm, v in vals1.items()}
+def _cs_abs(x):
+    x = np.asarray(x)
+    return x * np.where(np.real(x) != 0, np.sign(np.real(x)), np.sign(np.imag(x)))
+
+
+CNS = dict(NPNS)
+CNS['abs'] = _cs_abs
+
+
+def detectable_at_first_point(rhs, c, vals1, i, k, l, reduce_sum, n):
+    """CLASSIFIES a jacobian entry that the automatic coloring lost (it never decides pass/fail).
+
+    Emulates, independently of the code under test, what ExecComp's sparsity sampling does at the first
+    linearization point: ALL inputs are moved simultaneously to x + off * rand (off = 1e-9 * x, 1e-9 where x is
+    exactly 0), the full jacobian is taken by complex step (h = 1e-40) in COMPLEX arithmetic (where e.g.
+    log1p(2.5e-19 + 0j) is exactly 0), |J| is accumulated over 3 draws, scaled by its largest entry, and entries
+    <= 1e-25 are dropped.  An entry is called detectable only if it clears 1e-20 (five orders of margin, the
+    random draws differ from ExecComp's) in each of 4 independent emulations.  Lost-but-detectable entries get
+    their own signature (always a violation); the others are the known finding F1 of FINDINGS.md."""
+    h = 1e-40
+    rs = np.random.RandomState(20260921)
+    names = [G.VARS[j] for j in c['vars']]
+    expr = ('sum(%s)' % rhs) if reduce_sum else rhs
+    col = [G.VARS[j] for j in c['vars']].index(G.VARS[i])
     try:
-        el = l if (reduce_sum or pv[G.VARS[i]].size > 1) else k
-        d = abs(G.ev(tree, envs(tree, pv, c, el), i, margin=False).d)
-        big = 0.0
-        for j in c['vars']:
-            for kk in range(n):
-                big = max(big, abs(G.ev(tree, envs(tree, pv, c, kk), j, margin=False).d))
+        for trial in range(4):
+            acc = None
+            for draw in range(3):
+                base = {}
+                for nm in names:
+                    v = np.array(vals1[nm], dtype=float).ravel()
+                    off = np.where(v == 0.0, 1.0, v) * 1e-9
+                    base[nm] = (v + off * rs.rand(v.size)).astype(complex)
+                blocks = []
+                for nm in names:
+                    cols = []
+                    for m in range(base[nm].size):
+                        ns = dict(CNS)
+                        for nm2 in names:
+                            arr = base[nm2].copy()
+                            if nm2 == nm:
+                                arr[m] += 1j * h
+                            ns[nm2] = arr if arr.size > 1 else arr[0]
+                        with np.errstate(all='ignore'):
+                            out = np.atleast_1d(np.asarray(eval(expr, {'__builtins__': {}}, ns), dtype=complex)).ravel()
+                        if out.size == 1 and n > 1 and not reduce_sum:
+                            out = np.full(n, out[0])
+                        cols.append(np.abs(np.imag(out) / h))
+                    blocks.append(np.array(cols).T)          # nout x size
+                if acc is None:
+                    acc = [np.zeros_like(b_) for b_ in blocks]
+                for a_, b_ in zip(acc, blocks):
+                    a_ += np.where(np.isfinite(b_), b_, 0.0)
+            big = max(float(np.max(a_)) for a_ in acc)
+            if not big > 0:
+                return False
+            if not acc[col][k, l] / big > 1e-20:
+                return False
+        return True
     except Exception:
         return False
-    return big > 0 and d > 1e-22 * big      # the real threshold is 1e-25 of the largest entry
 
 
 def handle(c):
@@ -156,8 +196,7 @@ def handle(c):
                             k, nm, l, got, want, src, cfg, nm, vals[nm].tolist()))
                         if ip == 0 or not colored or got != 0.0:
                             sig = sig or 'partial'
-                        elif detectable_at_first_point(tree, c, point_vals(c['points'][0]), i, k, l,
-                                                       reduce_sum, n):
+                        elif detectable_at_first_point(rhs, c, point_vals(c['points'][0]), i, k, l, reduce_sum, n):
                             sig = sig or 'coloring-lost-detectable-entry'
                         else:
                             sig = sig or 'coloring-sparsity-zero-at-sampling-point'
